@@ -770,7 +770,7 @@ impl Prop for C05 {
         if idx % 40 == 39 {
             return self.long_line_case(rng, ctx);
         }
-        let o = Opts { data: rng.coin(), func: rng.coin(), tron: false, stop: true, max_lines: 20, input: rng.coin(), frac: rng.coin() };
+        let o = Opts { data: rng.coin(), func: rng.coin(), tron: false, stop: true, max_lines: 20, input: rng.coin(), frac: rng.coin(), strings: rng.coin() };
         let p = gen::generate(rng, o);
         let canon = gen::render(&p);
         let spelled = gen::render_spelled(&p, rng.next_u64());
